@@ -83,6 +83,18 @@ impl CountMinSketch {
     }
 }
 
+#[cfg(feature = "verif-hooks")]
+impl CountMinSketch {
+    /// Verification hook: `(mask, seeds, rows)`.
+    pub(crate) fn verif_state(&self) -> (u64, Vec<u64>, Vec<Vec<u8>>) {
+        (
+            self.mask,
+            self.seeds.to_vec(),
+            self.rows.iter().map(|r| r.verif_bytes()).collect(),
+        )
+    }
+}
+
 #[cfg(test)]
 mod test {
     use super::*;
